@@ -11,7 +11,7 @@ from ..mutants import M
 from ..spec import spec
 from .common import SELF, fold, loc_of, self_attr
 from .schedule import population_weights
-from .smcloop import SMC, find_smc_loop, fold_sample, history_appends
+from .smcloop import SMC, find_smc_loop, fold_sample, history_appends, roles
 
 META = {
     "explanation": (
@@ -119,8 +119,9 @@ def run(ctx):
         if lp is None:
             ctx.unknown("C08.pre", sample.ident, loc_of(sample, loop_node), f"[{tag}] loop not recorded")
             continue
-        head_s, head_b = lp["head"].get("samples"), lp["head"].get("beta")
-        body_b = lp["body"].get("beta")
+        R = roles(repo)
+        head_s, head_b = lp["head"].get(R.samples), lp["head"].get(R.beta)
+        body_b = lp["body"].get(R.beta)
         ok_beta = body_b is not None and body_b[0] == "s" and body_b[1][0] == "f" and body_b[1][1].endswith("determine_beta") \
             and head_s in body_b[1][2] and head_b in body_b[1][2]
         for callee, series in (("method:log_evidence_ratio", "log_norm_ratio"), ("method:log_evidence_ratio_variance", "log_norm_ratio_var")):
@@ -151,7 +152,7 @@ def run(ctx):
         mu = sf.events(".mutate", in_loop=True)
         rs = sf.events("method:resample", in_loop=True)
         ok = len(mu) == 1 and len(rs) == 1 and rs[0].args[0] == head_s and rs[0].args[1] == body_b and mu[0].args[0] == rs[0].result \
-            and mu[0].args[1] == body_b and lp["body"].get("samples") == mu[0].result
+            and mu[0].args[1] == body_b and lp["body"].get(R.samples) == mu[0].result
         ctx.decide(ok, "C08.flow", sample.ident, loc_of(sample, loop_node),
                    f"[{tag}] next population == mutate(resample(population, beta'), beta')",
                    f"[{tag}] the loop does not carry mutate(resample(population, beta'), beta') to the next iteration", disc=tag)
